@@ -6,18 +6,18 @@ Lemma un_bool_SB : forall b, un_bool (SB b) = Some b.
 Proof. destruct b; reflexivity. Qed.
 
 Lemma side_ok_model : forall fp v,
-  wf v = true -> homogeneous_sortable v = true -> no_pandas v = true -> unmasked v = true ->
+  wf v = true ->
   side_ok fp v (obs_side (to_hashable fp v)) (obs_stable (to_hashable fp v)) = true.
 Proof.
-  intros fp v Hwf Hhs Hnp Hum. unfold side_ok. destruct (convertible fp v) eqn:Hc; [|reflexivity]. cbn [negb].
-  destruct (total_on_supported fp v Hwf Hhs Hnp Hc) as [k Hk]. rewrite Hk.
-  assert (Hh := key_hashable fp v k Hwf Hum Hnp Hk).
+  intros fp v Hwf. unfold side_ok. destruct (convertible fp v) eqn:Hc; [|reflexivity]. cbn [negb].
+  destruct (total_on_supported fp v Hwf Hc) as [k Hk]. rewrite Hk.
+  assert (Hh := key_hashable fp v k Hwf Hk).
   unfold obs_side, obs_stable, side_is_ok_hashable. rewrite Hh, !un_bool_SB.
   destruct (has_opaque v); reflexivity.
 Qed.
 
 Definition pair_guard (v : pyval) : bool :=
-  supported v && homogeneous_sortable v && no_pandas v && no_zero_count v && unmasked v.
+  supported v && no_pandas v.
 
 Theorem spec_ok_pair : forall fp v w,
   pair_guard v = true -> pair_guard w = true -> spec_ok (CPair fp v w) (run (CPair fp v w)) = true.
@@ -105,4 +105,52 @@ Proof.
     destruct (memo_key a); [destruct (negb (py_hashable a0)); [|destruct (memo_find a0 store)]|]; simpl; rewrite IH; auto. }
   rewrite Hlen, Nat.eqb_refl. cbn [andb].
   apply memo_run_ok; auto. intros k j [].
+Qed.
+
+(* ---------- re-keying after an in-place update: the key is a function of the value alone ---------- *)
+Theorem spec_ok_rekey : forall v w,
+  pair_guard v = true -> pair_guard w = true -> spec_ok (CRekey v w) (run (CRekey v w)) = true.
+Proof.
+  intros v w Hv Hw. unfold pair_guard in Hv, Hw.
+  repeat match goal with H : _ && _ = true |- _ => apply andb_true_iff in H; destruct H end.
+  match goal with H : supported v = true |- _ => rename H into Hsv end.
+  match goal with H : supported w = true |- _ => rename H into Hsw end.
+  assert (Hwfv : wf v = true) by (unfold supported in Hsv; apply andb_true_iff in Hsv; tauto).
+  assert (Hwfw : wf w = true) by (unfold supported in Hsw; apply andb_true_iff in Hsw; tauto).
+  cbn [spec_ok run]. rewrite Hsv, Hsw. cbn [andb negb].
+  destruct (to_hashable true v) as [k0|e] eqn:Hk0; [|destruct e; reflexivity].
+  destruct (to_hashable true w) as [k1|e] eqn:Hk1; [|destruct e; reflexivity].
+  replace (sx_is_err (SL [SB (py_eq k1 k1); SB (py_eq k1 k0)])) with false by (destruct (py_eq k1 k1); reflexivity).
+  rewrite !un_bool_SB. unfold py_eq at 1. rewrite rel_refl. cbn [andb].
+  destruct (py_same w v) eqn:Hs.
+  - rewrite (eq_implies_key_eq true w v k1 k0); auto.
+  - destruct (py_eq k1 k0) eqn:He; [|reflexivity].
+    rewrite (key_eq_implies_eq true w v k1 k0) in Hs; auto; discriminate.
+Qed.
+
+(* ---------- DiskCache file names ---------- *)
+Theorem spec_ok_pickle : forall v, spec_ok (CPickle v) (run (CPickle v)) = true.
+Proof.
+  intros v. cbn [spec_ok run]. destruct (negb (supported v && negb (has_opaque v))); [reflexivity|].
+  destruct (to_hashable true v) as [k|e]; [reflexivity|destruct e; reflexivity].
+Qed.
+
+(* ---------- capstone: the executable statement holds of the model's observation for every case kind,
+   outside the one remaining known region (pandas values) ---------- *)
+Definition case_guard (c : case) : bool :=
+  match c with
+  | CPair _ v w => pair_guard v && pair_guard w
+  | CMemo args => forallb pair_guard args
+  | CPickle _ => true
+  | CRekey v w => pair_guard v && pair_guard w
+  end.
+
+Theorem spec_ok_all : forall c, case_guard c = true -> spec_ok c (run c) = true.
+Proof.
+  intros c H. destruct c as [fp v w|args|v|v w]; cbn [case_guard] in H.
+  - apply andb_true_iff in H. destruct H. apply spec_ok_pair; auto.
+  - apply spec_ok_memo. intros a Ha. rewrite forallb_forall in H. specialize (H a Ha).
+    unfold pair_guard in H. apply andb_true_iff in H. exact H.
+  - apply spec_ok_pickle.
+  - apply andb_true_iff in H. destruct H. apply spec_ok_rekey; auto.
 Qed.
